@@ -101,6 +101,39 @@ func honestTuple(c *ipa.IPAConfig, s stmt) tuple {
 
 func sameEl(a, b *banderwagon.Element) bool { return ref.SameClass(elToRef(a), elToRef(b)) }
 
+// sameTuple: the two tuples are the same statement and proof as values (group elements up to class).
+func sameTuple(a, b tuple) bool {
+	if a.label != b.label || len(a.Cs) != len(b.Cs) || len(a.ys) != len(b.ys) || len(a.zs) != len(b.zs) || len(a.L) != len(b.L) || len(a.R) != len(b.R) {
+		return false
+	}
+	for i := range a.Cs {
+		if !sameEl(&a.Cs[i], &b.Cs[i]) {
+			return false
+		}
+	}
+	for i := range a.ys {
+		if !a.ys[i].Equal(&b.ys[i]) {
+			return false
+		}
+	}
+	for i := range a.zs {
+		if a.zs[i] != b.zs[i] {
+			return false
+		}
+	}
+	for i := range a.L {
+		if !sameEl(&a.L[i], &b.L[i]) {
+			return false
+		}
+	}
+	for i := range a.R {
+		if !sameEl(&a.R[i], &b.R[i]) {
+			return false
+		}
+	}
+	return sameEl(&a.D, &b.D) && a.A.Equal(&b.A)
+}
+
 func perturbations(base tuple, other tuple, salt int, all bool) []pert {
 	var ps []pert
 	g := banderwagon.Generator
@@ -109,6 +142,11 @@ func perturbations(base tuple, other tuple, salt int, all bool) []pert {
 	add := func(name string, f func(t *tuple), reprOnly bool) {
 		t := base.clone()
 		f(&t)
+		if !reprOnly && sameTuple(t, base) {
+			// not a change of value on this base (e.g. -identity, a:=0 when a is already 0): must stay accepted
+			name += " (no change of value on this base)"
+			reprOnly = true
+		}
 		ps = append(ps, pert{name, t, reprOnly})
 	}
 	elPerts := func(what string, get func(t *tuple) *banderwagon.Element, full bool) {
@@ -275,6 +313,14 @@ func c02Units(ctx *core.Ctx) []core.Unit {
 				base := honestTuple(c, s)
 				other := honestTuple(c, bases[(bi_+1)%len(bases)])
 				ps := perturbations(base, other, bi_, ctx.Thorough())
+				// a statement about the zero polynomial has the all-identity proof for every index, so changed
+				// statements can be true and provable by the same proof: only agreement with the reference is demanded
+				degenerate := false
+				for _, p := range s.polys {
+					if p.Name == "zero" {
+						degenerate = true
+					}
+				}
 				if part == 0 {
 					ps = append([]pert{{"honest (unperturbed)", base, true}}, ps...)
 				}
@@ -297,7 +343,7 @@ func c02Units(ctx *core.Ctx) []core.Unit {
 						vio(r, "c02.shape", "CheckMultiProof", desc, fmt.Sprintf("shape error=%v", shape), fmt.Sprintf("err=%v", err))
 					case p.reprOnly && !ok:
 						vio(r, "c02.repr", "CheckMultiProof", desc, "a representation-only change keeps the proof accepted", fmt.Sprintf("accepted=%v err=%v", ok, err))
-					case !p.reprOnly && ok:
+					case !p.reprOnly && ok && !degenerate:
 						vio(r, "c02.reject", "CheckMultiProof", desc, "a changed statement/proof is rejected", "accepted (by the reference too)")
 					}
 					if pi == 5 {
